@@ -254,6 +254,16 @@ def snapshot(o, depth=0, seen=None):
         seen.pop(id(o), None)
 
 
+def _has_nan(x, depth=0):
+    if type(x) is float:
+        return x != x
+    if type(x) is complex:
+        return x.real != x.real or x.imag != x.imag
+    if type(x) in (tuple, list, frozenset) and depth < 6:
+        return any(_has_nan(e, depth + 1) for e in x)
+    return False
+
+
 def _noaddr(s):
     """default reprs carry the object's address: identity, not behaviour"""
     import re
@@ -450,7 +460,9 @@ def check(case, rec):
                     pr = ("exc", type(ex).__name__)
                 if tw[0] == "exc":
                     errors += 1
-                if stp[0] == "hash" and tw[0] == pr[0] == "ok" and type(twin_before) not in (Vec, Vec2) and type(pr[1]) is int:
+                if stp[0] == "hash" and tw[0] == pr[0] == "ok" and type(pr[1]) is int and (
+                        type(twin_before) not in (Vec, Vec2) or _has_nan(getattr(twin_before, "xs", ()))):
+                    # identity-based hashes (default objects; a NaN hashes by the identity of the float/complex object holding it)
                     tw = pr = ("ok", "identity-based hash")       # compared only for being integers
                 if stp[0] == "iter" and tw[0] == pr[0] == "ok" and type(tw[1]).__name__ == "iterator" == type(pr[1]).__name__:
                     # sequence-protocol iteration: Python itself builds a local iterator around the object (or proxy)
